@@ -1,10 +1,10 @@
 #!/bin/bash
 # files every finished /tmp/mut_<ID>_<x> (with patch.diff, demo.py, notes.md) that is not yet under seeded/
 cd /verif
-for d in /tmp/mut_C*_[ij]; do
+for d in /tmp/mut_C*_k; do
   [ -f $d/patch.diff ] && [ -f $d/demo.py ] && [ -f $d/notes.md ] || continue
   b=$(basename $d); id=${b#mut_}; prop=${id%_*}; x=${id#*_}
-  name="$prop-$x-round5"
+  name="$prop-$x-round6"
   ls -d seeded/$prop-$x-* >/dev/null 2>&1 && continue
   echo "=== $b"
   tools/confirm_mutant.sh $d $name $prop 2>&1 | tail -4 | cut -c1-500
